@@ -105,6 +105,18 @@ def check_fresh_names(rep: Report, prog: Program, rule: str, funcs: List[FuncInf
                    (f"`{avoid.id}` is seeded from the partial registry view(s) {[r + '.nonterminals()/terminals()' for r in bad_partial]} "
                     f"without {[r + '.edge_labels()' for r in bad_partial]}: a fresh name may collide with a label of the other kind")
                    if bad_partial else f"seed views: {sorted(set(views))}")
+            # every object whose labels the owner reads must be completely seeded
+            readers = set()
+            for x in own_nodes(owner.node, into_lambdas=True):
+                if isinstance(x, ast.Call) and isinstance(x.func, ast.Attribute) and x.func.attr in PARTIAL | COMPLETE | {'all_rules'} and not x.args:
+                    rt = _recv_text(x.func.value, alias)
+                    if rt.split('.')[0] in owner.param_names():
+                        readers.add(rt)
+            unseeded = sorted(readers - complete)
+            if readers:
+                rep.ob(rule + ' (a) every source seeded', owner.fq(), f"avoid set `{avoid.id}` covers every label source of {owner.name}", owner.loc(),
+                       not unseeded or is_param and not seeds,
+                       f"label sources read: {sorted(readers)}; completely seeded: {sorted(complete)}" + (f"; not seeded: {unseeded}" if unseeded else ''))
             if not is_param:
                 rep.ob(rule + ' (a) complete seed', owner.fq(), f"avoid set `{avoid.id}` for {construct}", owner.loc(), bool(complete),
                        f"complete registries seeded: {sorted(complete)}" if complete else f"`{avoid.id}` is never seeded from a complete registry (X.edge_labels())")
